@@ -26,16 +26,22 @@ package aws
 //@   ensures p != nil ==> v == deref(p)
 //@   ensures p == nil ==> v == ""
 
+// RD[asg]: the REAL desired capacity of each ASG (what AWS holds), as opposed to the provider's cached
+// n.asg.DesiredCapacity. asgOf(id): the ASG an instance belongs to.
+//@ ghost RD [string]int
+//@ spec asgOf(id string) string
 // ---------------------------------------------------------------- AWS write calls (assumed; each appends one event)
 // A_SETDESIRED: Jname = ASG name, Jnum = desired capacity asked for
 //@ iface github.com/aws/aws-sdk-go/service/autoscaling/autoscalingiface.AutoScalingAPI.SetDesiredCapacity(api, input) (out, err)
 //@   requires input != nil && input.AutoScalingGroupName != nil && input.DesiredCapacity != nil
-//@   modifies Jlen, Jkind, Jname, Jnum, Jok
+//@   modifies Jlen, Jkind, Jname, Jnum, Jok, RD
+//@   ensures [C07] RD == (err == nil ? old(RD)[deref(input.AutoScalingGroupName) := deref(input.DesiredCapacity)] : old(RD))
 //@   ensures Jlen == old(Jlen) + 1 && Jkind == old(Jkind)[old(Jlen) := A_SETDESIRED] && Jname == old(Jname)[old(Jlen) := deref(input.AutoScalingGroupName)] && Jnum == old(Jnum)[old(Jlen) := deref(input.DesiredCapacity)] && Jok == old(Jok)[old(Jlen) := err == nil]
 // A_TERMASG: Jname = instance id, Jnum = 1 iff desired capacity is decremented. A successful answer carries an activity description.
 //@ iface github.com/aws/aws-sdk-go/service/autoscaling/autoscalingiface.AutoScalingAPI.TerminateInstanceInAutoScalingGroup(api, input) (out, err)
 //@   requires input != nil && input.InstanceId != nil && input.ShouldDecrementDesiredCapacity != nil
-//@   modifies Jlen, Jkind, Jname, Jnum, Jok
+//@   modifies Jlen, Jkind, Jname, Jnum, Jok, RD
+//@   ensures [C07] RD == (err == nil && deref(input.ShouldDecrementDesiredCapacity) ? old(RD)[asgOf(deref(input.InstanceId)) := old(RD)[asgOf(deref(input.InstanceId))] - 1] : old(RD))
 //@   ensures Jlen == old(Jlen) + 1 && Jkind == old(Jkind)[old(Jlen) := A_TERMASG] && Jname == old(Jname)[old(Jlen) := deref(input.InstanceId)] && Jnum == old(Jnum)[old(Jlen) := (deref(input.ShouldDecrementDesiredCapacity) ? 1 : 0)] && Jok == old(Jok)[old(Jlen) := err == nil]
 //@   ensures err == nil ==> out != nil && out.Activity != nil && out.Activity.Description != nil
 
@@ -44,6 +50,10 @@ package aws
 //@ spec desired(n *NodeGroup) int = (n.asg.DesiredCapacity == nil ? 0 : deref(n.asg.DesiredCapacity))
 //@ spec amax(n *NodeGroup) int = (n.asg.MaxSize == nil ? 0 : deref(n.asg.MaxSize))
 //@ spec amin(n *NodeGroup) int = (n.asg.MinSize == nil ? 0 : deref(n.asg.MinSize))
+// synced(n): the cached desired capacity is the real one (true after every Refresh)
+//@ spec synced(n *NodeGroup) bool = desired(n) == RD[n.id]
+// the instances the cache lists for this ASG belong to it
+//@ spec ownInst(n *NodeGroup) bool = forall i :: 0 <= i && i < len(n.asg.Instances) ==> asgOf(deref(n.asg.Instances[i].InstanceId)) == n.id
 //@ func (*NodeGroup).TargetSize(n) (r)
 //@   requires n != nil && n.asg != nil
 //@   ensures r == desired(n)
@@ -63,7 +73,8 @@ package aws
 // C17 (plain ASG mode): one SetDesiredCapacity for exactly the size given.
 //@ func (*NodeGroup).setASGDesiredSize(n, newSize) (err)
 //@   requires asgOK(n)
-//@   modifies Jlen, Jkind, Jname, Jnum, Jok
+//@   modifies Jlen, Jkind, Jname, Jnum, Jok, RD
+//@   ensures [C07] RD == (err == nil ? old(RD)[n.id := newSize] : old(RD))
 //@   ensures Jlen == old(Jlen) + 1 && ajprefix(old(Jlen))
 //@   ensures [C17,C07] Jkind[old(Jlen)] == A_SETDESIRED && Jname[old(Jlen)] == n.id && Jnum[old(Jlen)] == newSize && Jok[old(Jlen)] == (err == nil)
 
@@ -75,8 +86,10 @@ package aws
 // in plain ASG mode the only write is SetDesiredCapacity(current + delta), so capacity is never lowered.
 //@ func (*NodeGroup).IncreaseSize(n, delta) (err)
 //@   requires asgOK(n) && n.provider.ec2Service != nil
-//@   modifies Jlen, Jkind, Jname, Jnum, Jok, Jaux, ATTs, TERMs, nATT, FLEETout, n.terminateInstancesTries
+//@   modifies Jlen, Jkind, Jname, Jnum, Jok, Jaux, ATTs, TERMs, nATT, FLEETout, RD, n.terminateInstancesTries
 //@   ensures Jlen >= old(Jlen) && ajprefix(old(Jlen))
+// C07: with the cache in step, a plain-mode increase lands exactly delta above the REAL desired capacity
+//@   ensures [C07] old(synced(n)) && n.config.AWSConfig.LaunchTemplateID == "" && err == nil ==> RD[n.id] == old(RD[n.id]) + delta
 //@   ensures [C17,C04] delta <= 0 || desired(n) + delta > amax(n) ==> err != nil && Jlen == old(Jlen)
 //@   ensures [C17,C07] n.config.AWSConfig.LaunchTemplateID == "" && delta > 0 && desired(n) + delta <= amax(n) ==> Jlen == old(Jlen) + 1 && Jkind[old(Jlen)] == A_SETDESIRED && Jname[old(Jlen)] == n.id && Jnum[old(Jlen)] == desired(n) + delta && Jnum[old(Jlen)] > desired(n) && Jok[old(Jlen)] == (err == nil)
 //@   ensures [C17,C07] forall k :: old(Jlen) <= k && k < Jlen && Jkind[k] == A_SETDESIRED ==> Jnum[k] == desired(n) + delta
@@ -116,15 +129,25 @@ package aws
 // a member (not-in-group error) or the first failing call.
 //@ func (*NodeGroup).DeleteNodes(n, nodes) (err)
 //@   requires asgOK(n) && instOK(n) && (forall i :: 0 <= i && i < len(nodes) ==> nodes[i] != nil)
-//@   modifies Jlen, Jkind, Jname, Jnum, Jok
+//@   requires [C07] ownInst(n) && n.asg.DesiredCapacity != nil
+// (the SDK hands out a separate int64 for every field)
+//@   requires n.asg.DesiredCapacity == nil || (n.asg.DesiredCapacity != n.asg.MinSize && n.asg.DesiredCapacity != n.asg.MaxSize)
+//@   modifies Jlen, Jkind, Jname, Jnum, Jok, RD, cell(n.asg.DesiredCapacity)
 //@   ensures Jlen >= old(Jlen) && ajprefix(old(Jlen))
-//@   ensures [C19] desired(n) <= amin(n) || desired(n) - len(nodes) < amin(n) ==> err != nil && Jlen == old(Jlen)
-//@   ensures [C19] Jlen - old(Jlen) <= len(nodes) && (Jlen > old(Jlen) ==> Jlen - old(Jlen) <= desired(n) - amin(n))
+// C07: the cached desired capacity stays in step with the decrements asked for, so that an IncreaseSize later
+// in the same scan builds on the real desired capacity
+//@   ensures [C07] old(synced(n)) ==> synced(n)
+//@   ensures desired(n) <= old(desired(n)) && amin(n) == old(amin(n)) && amax(n) == old(amax(n))
+//@   ensures [C19] old(desired(n)) <= amin(n) || old(desired(n)) - len(nodes) < amin(n) ==> err != nil && Jlen == old(Jlen)
+//@   ensures [C19] Jlen - old(Jlen) <= len(nodes) && (Jlen > old(Jlen) ==> Jlen - old(Jlen) <= old(desired(n)) - amin(n))
 //@   ensures [C19] forall k :: old(Jlen) <= k && k < Jlen ==> Jkind[k] == A_TERMASG && Jnum[k] == 1 && (exists i :: firstAt(n, nodes[k - old(Jlen)].Spec.ProviderID, i) && Jname[k] == deref(n.asg.Instances[i].InstanceId))
 //@   ensures [C19] err == nil ==> Jlen == old(Jlen) + len(nodes) && (forall k :: old(Jlen) <= k && k < Jlen ==> Jok[k])
-//@   ensures [C19] err != nil && Jlen - old(Jlen) < len(nodes) && !(desired(n) <= amin(n) || desired(n) - len(nodes) < amin(n)) && (Jlen == old(Jlen) || Jok[Jlen - 1]) ==> typeis(err, "*cloudprovider.NodeNotInNodeGroup") && !member(n, nodes[Jlen - old(Jlen)].Spec.ProviderID)
+//@   ensures [C19] err != nil && Jlen - old(Jlen) < len(nodes) && !(old(desired(n)) <= amin(n) || old(desired(n)) - len(nodes) < amin(n)) && (Jlen == old(Jlen) || Jok[Jlen - 1]) ==> typeis(err, "*cloudprovider.NodeNotInNodeGroup") && !member(n, nodes[Jlen - old(Jlen)].Spec.ProviderID)
 //@ loop #0
+//@   modifies cell(n.asg.DesiredCapacity)
 //@   invariant Jlen == old(Jlen) + #i && ajprefix(old(Jlen))
+//@   invariant [C07] old(synced(n)) ==> synced(n)
+//@   invariant desired(n) <= old(desired(n)) && amin(n) == old(amin(n)) && amax(n) == old(amax(n)) && instOK(n)
 //@   invariant forall k :: old(Jlen) <= k && k < Jlen ==> Jkind[k] == A_TERMASG && Jnum[k] == 1 && Jok[k] && (exists i :: firstAt(n, nodes[k - old(Jlen)].Spec.ProviderID, i) && Jname[k] == deref(n.asg.Instances[i].InstanceId))
 //@ loop #1
 //@   invariant forall j :: 0 <= j && j < #i ==> instPid(n, j) != node.Spec.ProviderID
@@ -148,7 +171,8 @@ package aws
 //@ iface github.com/aws/aws-sdk-go/service/autoscaling/autoscalingiface.AutoScalingAPI.AttachInstances(api, input) (out, err)
 //@   requires input != nil && input.AutoScalingGroupName != nil
 //@   requires [C17,C07] len(input.InstanceIds) <= 20
-//@   modifies Jlen, Jkind, Jname, Jnum, Jok, ATTs, nATT
+//@   modifies Jlen, Jkind, Jname, Jnum, Jok, ATTs, nATT, RD
+//@   ensures [C07] RD == (err == nil ? old(RD)[deref(input.AutoScalingGroupName) := old(RD)[deref(input.AutoScalingGroupName)] + len(input.InstanceIds)] : old(RD))
 //@   ensures nATT == old(nATT) + (err == nil ? len(input.InstanceIds) : 0)
 //@   ensures Jlen == old(Jlen) + 1 && Jkind == old(Jkind)[old(Jlen) := A_ATTACH] && Jname == old(Jname)[old(Jlen) := deref(input.AutoScalingGroupName)] && Jnum == old(Jnum)[old(Jlen) := len(input.InstanceIds)] && Jok == old(Jok)[old(Jlen) := err == nil]
 //@   ensures err != nil ==> ATTs == old(ATTs)
@@ -230,7 +254,7 @@ package aws
 //@ func (*NodeGroup).attachInstancesToASG(n, instances, terminate) (err)
 //@   fnparam terminate = terminateOrphanedInstances
 //@   requires asgOK(n) && n.provider.ec2Service != nil && idsOK(instances)
-//@   modifies Jlen, Jkind, Jname, Jnum, Jok, ATTs, TERMs, nATT, n.terminateInstancesTries
+//@   modifies Jlen, Jkind, Jname, Jnum, Jok, ATTs, TERMs, nATT, RD, n.terminateInstancesTries
 // (on a failed attach call the list handed to terminate is built by append into the unused capacity of the slice given)
 //@   modifies spare(instances)
 //@   ensures Jlen >= old(Jlen) && ajprefix(old(Jlen))
@@ -264,7 +288,7 @@ package aws
 //@ spec acqIds(out *ec2.CreateFleetOutput, i int) []*string = out.Instances[i].InstanceIds
 //@ func (*NodeGroup).setASGDesiredSizeOneShot(n, addCount) (err)
 //@   requires asgOK(n) && n.provider.ec2Service != nil && addCount > 0
-//@   modifies Jlen, Jkind, Jname, Jnum, Jok, Jaux, ATTs, TERMs, nATT, FLEETout, n.terminateInstancesTries
+//@   modifies Jlen, Jkind, Jname, Jnum, Jok, Jaux, ATTs, TERMs, nATT, FLEETout, RD, n.terminateInstancesTries
 //@   ensures Jlen >= old(Jlen) && ajprefix(old(Jlen))
 //@   ensures forall k :: old(Jlen) <= k && k < Jlen ==> Jkind[k] != A_SETDESIRED
 //@   ensures [C17,C07] forall k :: old(Jlen) <= k && k < Jlen && Jkind[k] == A_ATTACH ==> Jnum[k] <= 20
